@@ -19,6 +19,21 @@ CLAIMED = {
         "Trusted: CPython semantics as encoded (T-PY), z3/cvc5 (T-SMT), the engine (T-ENG); Arpeggio's "
         "pos_to_linecol and node positions (T-ARP). The processor is an External callable (universally quantified).",
         "DESIGN.md 5/C33, 2.10", ""),
+    "C26": (
+        "Every operation of registration.py is proved against a whole-view contract over the abstract registry state "
+        "(languages: None or dict lower-case name -> description; generators: two-level dict; metamodels cache): "
+        "register_* adds exactly one binding under the lower-cased key and refuses an existing key leaving the view "
+        "unchanged; clear_* unloads; the lazy loader re-reads the entry points exactly when the registry is unloaded "
+        "(so entry-point registrations survive clearing) and never touches the metamodel cache; language_description / "
+        "generator_description (incl. the 'any' fallback and its KeyError logic); languages_for_file returns exactly "
+        "the matching descriptions, once each, in registry order (counting spec function + loop invariant); "
+        "language_for_file fails unless exactly one; metamodel_for_language returns the cached instance without "
+        "arguments and otherwise the instance or factory(**kwargs), cached. An arbitrary history of operations is "
+        "covered by induction over these per-operation contracts.",
+        "Assumed: entry_points() is a fixed list; loading an entry point and metamodel factories do not rebind the "
+        "registry globals or touch the metamodel cache; fnmatch is a pure predicate on strings; str.lower is an "
+        "uninterpreted function. register_*_with_project is used through an assumed (trusted) contract.",
+        "DESIGN.md 5/C26", ""),
     "C30": (
         "The body of the custom-argument loop of `textx generate` (a statement region of the real click command, "
         "decorators dropped) is proved against the per-token contract taken from the statement: a token --name "
